@@ -717,9 +717,23 @@ WHERE {where} ORDER BY jobs.batch_id, jobs.job_id''', args)
         r['burst'] = len(new)
         return r
 
-    async def op_cancel_ready(self):
+    async def _occupy_worker_pool(self, busy):
+        """the driver's shared AsyncWorkerPool is busy with other work for `busy` loop steps (the scheduler, other cancellers and
+        the autoscaler share it): queued calls start only after the loop that queued them has moved on"""
+        import asyncio
+
+        async def other_work():
+            for _ in range(busy):
+                await asyncio.sleep(0)
+        pool = self.app['async_worker_pool']
+        for _ in range(self.cfg.get('pool_par', 8)):
+            await pool.call(other_work)
+
+    async def op_cancel_ready(self, busy=0):
         if self._frozen_parent_guard(states=('Ready',)):
             return None
+        if busy:
+            await self._occupy_worker_pool(busy)
         return await self._guard(self.canceller.cancel_cancelled_ready_jobs_loop_body())
 
     async def op_cancel_creating(self, crash=False):
@@ -739,7 +753,9 @@ WHERE {where} ORDER BY jobs.batch_id, jobs.job_id''', args)
         finally:
             self.jpim.call_delete_instance = orig
 
-    async def op_cancel_running(self):
+    async def op_cancel_running(self, busy=0):
+        if busy:
+            await self._occupy_worker_pool(busy)
         return await self._guard(self.canceller.cancel_cancelled_running_jobs_loop_body())
 
     async def op_cancel_orphans(self):
